@@ -376,3 +376,28 @@ def run(ck):
                     ck.ob("C11-R5", name + "/stored-at-own-position", by_pos and not by_counter, sx.loc, f,
                           "results[%s]" % it if by_pos and not by_counter else
                           "the value is stored at results[%s]: completion order, not argument order" % it)
+
+    # ---------------- R7: the outcome of an inner promise always reaches the derived promise ----------------
+    ck.rule("C11-R7", "C must-pass-through + I ownership (type-level)",
+            "the Chainer that forwards the outcome of a promise returned by a continuation settles the derived core on every path "
+            "(construct + walk, no silent way out), and holds that core by shared ownership: in a fluent chain of temporaries the Chainer "
+            "is the only owner left once the upstream promise is gone", 2)
+    for f in prog.find(P + "impl::Continuation::Chainer::operator()", 2):
+        cons_ = lib.Summaries(prog).lift_must(lambda e: e["k"] == "call" and strip_tmpl(e.get("callee") or "") == P + "Core::construct", "core-construct")
+        bad_ = [x for x in cfg.exits_without(f, cons_) if x.kind != "throw"]
+        ck.ob("C11-R7", "Chainer@%s/settles-on-every-path" % f.line, not bad_, f.loc, f,
+              "Core::construct on every path" if not bad_ else
+              "the Chainer can return without settling the derived core: the inner promise's value is dropped and the rest of the chain never runs")
+    nch = 0
+    for c in prog.class_list:
+        if c.get("dependent") or not strip_tmpl(c["name"]).endswith("::Chainer"):
+            continue
+        for fl in c.get("fields", []):
+            ty = (fl.get("ctype") or fl.get("type") or "")
+            if "Core" in ty and "_ptr" in ty:
+                nch += 1
+                ok_ = "shared_ptr" in ty and "weak_ptr" not in ty
+                ck.ob("C11-R7", "Chainer::%s/shared-ownership" % fl["name"], ok_, "%s:%s" % (c["file"], fl.get("line", c["line"])), "",
+                      "declared %s" % fl.get("type") if ok_ else
+                      "the Chainer holds the derived core as %s: when the upstream promise of a temporary chain is gone nothing keeps the core alive and the inner promise's outcome is dropped" % fl.get("type"))
+    ck.require(nch >= 1, "Chainer's reference to the derived core not found")
